@@ -3,7 +3,7 @@
 Decides absence of the lost-wakeup shape for every tokio::sync::Notify whose notifier uses
 notify_waiters (no stored permit), plus the publish-before-notify and track-before-send orderings.
 """
-from mir import sem_calls, calls_to, callers_of, origins, value_aliases, payload_aliases
+from mir import sem_calls, calls_to, callers_of, origins, value_aliases, payload_aliases, branches_on
 from facts import Place, op_place
 
 NW = "tokio::sync::notify::Notify::notify_waiters"
@@ -70,13 +70,31 @@ def rule_lost_wakeup(ctx):
         ctx.ob("C14.1", "waiters of `%s` located" % f, bool(ws), "no notified() call on field `%s`" % f, trivial=True)
         for b, n in ws:
             # state checks that precede the wait: lock acquisitions whose completion dominates notified()
-            locks = [l for l in sem_calls(b) if l.is_(*LOCKS) and l.awaited and b.dominates(l.done_bb, n.bb)]
-            if not locks:
+            locks = [l for l in sem_calls(b) if l.is_(*LOCKS) and l.awaited and
+                     (b.dominates(l.done_bb, n.bb) or (n.aw is not None and n.aw.poll_bb is not None
+                                                       and b.dominates(l.done_bb, n.aw.poll_bb)))]
+            trylocks = [x for x in sem_calls(b) if x.name.rsplit("::", 1)[-1] in ("try_lock", "try_read", "try_write")]
+            if not locks and not trylocks:
                 ctx.ob("C14.1", "wait on `%s` in %s is preceded by a state check" % (f, b.root), True,
                        "no state check before the wait: nothing to lose", trivial=True)
                 continue
-            first = locks[0]
+            first = (locks or trylocks)[0]
             created_before = b.dominates(n.bb, first.bb)
+            # the state check must really be performed on every path into the wait: a path that skips it
+            # (e.g. try_lock failed) waits for a notification that may already have been sent
+            if n.aw is not None and n.aw.poll_bb is not None:
+                acquired = {l.done_bb for l in sem_calls(b) if l.is_(*LOCKS) and l.awaited}
+                for tl in [x for x in sem_calls(b) if x.name.rsplit("::", 1)[-1] in ("try_lock", "try_read", "try_write")]:
+                    for br in branches_on(b, tl.result, tl.done_bb):
+                        e = br.edge("ok")
+                        if e:
+                            acquired.add(e[1])
+                ctx.ob("C14.1", "every path into the wait on `%s` performed the state check:%s" % (f, b.root),
+                       b.must_pass(acquired, frm=0, to=[n.aw.poll_bb]),
+                       "`%s`: there is a path to `%s.notified().await` that never acquired the lock protecting the "
+                       "result (e.g. a failed try_lock): if the result was already published and the waiters "
+                       "already notified, this caller waits forever" % (b.root, f), site=n.loc(),
+                       key="C14.1:wait-without-check:%s:%s" % (b.root, f))
             # guard of the last check still live when notified() is created?
             held = False
             for l in locks:
